@@ -430,3 +430,18 @@ package flushable
 //@   requires p != nil && p.wrappers != nil
 //@   modifies p.wrappers[*], all(LazyFlushable).producer, all(Flushable).underlying, all(flushableReader).underlying, gProdN, gProdR0, gProdR1, gInitN, gInitRecv, gInitR0, gInitR1
 //@   ensures  result1 == nil ==> result0 != nil
+//@
+//@ // Initialize / OpenDB (C28, lock discipline): the pool's table is only reached with the pool's mutex held. The method
+//@ // checkDBsSynced (takes the mutex itself, opens every database, then calls CheckDBsSynced) is assumed lock-neutral.
+//@ trusted func (*SyncedPool).checkDBsSynced
+//@   requires p != nil
+//@   ensures  true
+//@ func (*SyncedPool).Initialize
+//@   requires p != nil && p.wrappers != nil
+//@   modifies p.wrappers[*], all(LazyFlushable).producer, all(Flushable).underlying, all(flushableReader).underlying, gProdN, gProdR0, gProdR1, gInitN, gInitRecv, gInitR0, gInitR1
+//@   loop 1 modifies p.wrappers[*], all(LazyFlushable).producer, all(Flushable).underlying, all(flushableReader).underlying, gProdN, gProdR0, gProdR1, gInitN, gInitRecv, gInitR0, gInitR1
+//@   loop 1 invariant p.wrappers != nil && 0 <= _k && _k <= len(dbNames)
+//@ func (*SyncedPool).OpenDB
+//@   requires p != nil && p.wrappers != nil
+//@   modifies p.wrappers[*]
+//@   ensures  result1 == nil && result0 != nil
